@@ -102,6 +102,24 @@ def outer_mutations(fd):
     return outer, par
 
 
+class ModelClass:
+    """The class of a model object handed around as a value (`make = x.__class__; make(x.field, 0)`)."""
+
+    _kv_eval_obj = True
+
+    def __init__(self, cls):
+        self.cls = cls
+
+    def __call__(self, *args):
+        return self.cls(*args)
+
+    def __eq__(self, o):
+        return isinstance(o, ModelClass) and o.cls is self.cls
+
+    def __hash__(self):
+        return hash(self.cls)
+
+
 class BuiltinRef:
     """A builtin handed around as a value (`label_of = int`)."""
 
@@ -622,6 +640,8 @@ class Folder:
                 base_obj = self.fold(node.value) if isinstance(node.value, (ast.Name, ast.Attribute, ast.Call, ast.Subscript, ast.BinOp, ast.IfExp)) else None
             except Unfoldable:
                 base_obj = None
+            if base_obj is not None and getattr(type(base_obj), "_kv_eval_obj", False) and node.attr == "__class__" and not isinstance(base_obj, ModelClass):
+                return ModelClass(type(base_obj))
             if base_obj is not None and getattr(type(base_obj), "_kv_eval_obj", False) and not node.attr.startswith("__") and hasattr(base_obj, node.attr) and (not callable(getattr(base_obj, node.attr)) or getattr(type(getattr(base_obj, node.attr)), "_kv_eval_obj", False)):
                 return getattr(base_obj, node.attr)
             if node.attr == "shape":
@@ -893,7 +913,7 @@ class Folder:
                 raise Unfoldable(str(exc))
         if isinstance(node, ast.Call) and not node.keywords and isinstance(node.func, (ast.Name, ast.Attribute)):
             try:
-                target = self.fold(node.func) if (isinstance(node.func, ast.Name) and node.func.id in self.names) or (isinstance(node.func, ast.Attribute) and attr_chain(node.func) in self.attrs) else None
+                target = self.fold(node.func) if (isinstance(node.func, ast.Name) and node.func.id in self.names) or (isinstance(node.func, ast.Attribute) and (attr_chain(node.func) in self.attrs or node.func.attr == "__class__")) else None
             except Unfoldable:
                 target = None
             if target is not None and getattr(type(target), "_kv_eval_obj", False) and callable(target):
@@ -1289,6 +1309,12 @@ class Folder:
             obj_ = self.fold(node.args[0])
             if getattr(type(obj_), "_kv_eval_obj", False):
                 return hasattr(obj_, node.args[1].value)
+            if isinstance(obj_, (int, float, complex)) and not isinstance(obj_, bool):
+                # a number stands for a python number or a 0-dim tensor: answered only where neither has the attribute
+                nm_ = node.args[1].value
+                TENSOR_ATTRS = {"shape", "dtype", "device", "real", "imag", "T", "mT", "data", "grad", "requires_grad", "ndim", "is_cuda", "layout", "names", "H", "mH", "itemsize", "nbytes"}
+                if nm_ not in TENSOR_ATTRS and not hasattr(obj_, nm_) and not nm_.startswith("__") and nm_ not in ("item", "dim", "size", "numel", "tolist", "numpy", "clone", "detach", "to", "float", "long", "int", "sum", "abs"):
+                    return False
             raise Unfoldable("hasattr of a value outside the model objects")
         if isinstance(node, ast.Call) and isinstance(node.func, ast.Name) and node.func.id == "isinstance" and len(node.args) == 2 and isinstance(node.args[1], ast.Name) and node.args[1].id in self.ctors:
             return isinstance(self.fold(node.args[0]), self.ctors[node.args[1].id])
@@ -1675,10 +1701,10 @@ class Folder:
                 if isinstance(k_, int) and 0 <= k_ <= 512:
                     return [[1 if i == j else 0 for j in range(k_)] for i in range(k_)]
                 raise Unfoldable("eye")
-            if short == "combinations" and len(node.args) == 2 and not node.keywords and nm in ("combinations", "itertools.combinations"):
+            if short == "combinations" and nm in ("combinations", "itertools.combinations") and (len(node.args) == 2 and not node.keywords or len(node.args) == 1 and len(node.keywords) == 1 and node.keywords[0].arg == "r"):
                 import itertools as _it
 
-                seq_, r_ = self.fold(node.args[0]), self.fold(node.args[1])
+                seq_, r_ = self.fold(node.args[0]), self.fold(node.args[1] if len(node.args) == 2 else node.keywords[0].value)
                 if not isinstance(seq_, list) or not isinstance(r_, int) or isinstance(r_, bool) or len(seq_) > 24:
                     raise Unfoldable("combinations")
                 return PySeq(PySeq(c_) for c_ in _it.combinations(seq_, r_))
